@@ -7,7 +7,7 @@ import Mathlib.Tactic.NormNum
 # C11 — obligations about the elastic-net duality gap GENERATED from the Rust source
 
 `LinfaSpec.Gen.Vectors.Enet` is regenerated from `algorithms/linfa-elasticnet/src/algorithm.rs`
-(`duality_gap`, `block_soft_thresholding`) on every check by `tools/vec2lean.py`; the design
+(`duality_gap`, `duality_gap_mtl`, `block_soft_thresholding`) on every check by `tools/vec2lean.py`; the design
 matrix `x` is read as the list of its columns, `x.t().dot(&r)` as the list of the column dot
 products.  The theorems state that the generated text is the model's `dualityGap` / `blockSoft` —
 the functions the weak-duality certificate theorems of C11 are about.
@@ -34,6 +34,31 @@ theorem block_soft_thresholding_is_model (x : List α) (thr : α) :
     Enet.block_soft_thresholding x thr = blockSoft x thr := by
   unfold Enet.block_soft_thresholding blockSoft norm2U
   simp only [dotU_eq, dotS_eq, decide_eq_true_eq]
+
+
+/-- `.diag()` of the product `AᵀB` written column by column is the list of the column dot products -/
+theorem vdiag_outer {β : Type} (f : β → β → α) (xs ys : List β) (h : xs.length = ys.length) :
+    vdiag (xs.map fun a => ys.map fun b => f a b) = List.zipWith f xs ys := by
+  apply List.ext_getElem
+  · simp [vdiag, h]
+  · intro i h1 h2
+    simp only [vdiag, List.length_map, List.getElem_map, List.getElem_range, List.getElem_zipWith]
+    have hx : i < xs.length := by simpa [vdiag] using h1
+    have hy : i < ys.length := h ▸ hx
+    simp [List.getD_eq_getElem?_getD, List.getElem?_map, List.getElem?_eq_getElem hx, List.getElem?_eq_getElem hy]
+
+/-- `duality_gap_mtl` in the source is the model's `dualityGapMtl` (the function
+`gap_bounds_suboptimality_mtl` is about), with `t` the number of tasks and `n = F::cast(x.nrows())` -/
+theorem duality_gap_mtl_is_model (t n : Nat) (C : List (List α)) (Y W R : List (List α)) (l1r pen : α) :
+    Enet.duality_gap_mtl t n C Y W R l1r pen = dualityGapMtl t C Y W R l1r pen (n : α) := by
+  have hh : ((0.5 : α)) = half := by rw [half_eq]; norm_num
+  have hv : ∀ (M : List (List α)), vcols t M = colsOf t M := fun _ => rfl
+  have hlen : (colsOf t R).length = (colsOf t Y).length := by simp [colsOf]
+  have hn2 : (fun (x : List α) => Transc.sqrt (dotS x x)) = norm2U := by
+    funext x; simp [norm2U, dotU_eq, dotS_eq]
+  unfold Enet.duality_gap_mtl dualityGapMtl dualNormMtl
+  simp only [hh, hv, hn2, vdiag_outer _ _ _ hlen, sumU_eq, sumS_eq, normMax, List.zipWith_map_left,
+    List.zipWith_map_right, decide_eq_true_eq]
 
 end field
 
